@@ -267,8 +267,42 @@ func (ex *Exec) sprintf(fr *frame, format value, args []value) value {
 			return r
 		}
 	}
+	// the verb each operand is printed with: numeric verbs print the value itself, also
+	// for types with a String or Error method (fmt only calls those for %v %s %q)
+	var verbs []byte
+	for i := 0; i < len(f); i++ {
+		if f[i] != '%' {
+			continue
+		}
+		i++
+		for i < len(f) && strings.ContainsRune("+-# 0123456789.[]", rune(f[i])) {
+			i++
+		}
+		if i >= len(f) {
+			break
+		}
+		if f[i] == '%' {
+			continue
+		}
+		if f[i] == '*' {
+			verbs = append(verbs, '*')
+			i++
+			if i >= len(f) {
+				break
+			}
+		}
+		verbs = append(verbs, f[i])
+	}
 	nat := make([]interface{}, len(args))
 	for i, a := range args {
+		if i < len(verbs) && strings.IndexByte("dxXobcUeEfFgGt", verbs[i]) >= 0 {
+			if ia, ok := a.(iface); ok && ia.t != nil {
+				if _, isPtr := ia.v.(*value); !isPtr {
+					nat[i] = ex.nativeArg(fr, ia.v)
+					continue
+				}
+			}
+		}
 		nat[i] = ex.nativeArg(fr, a)
 	}
 	f = strings.ReplaceAll(f, "%w", "%v")
